@@ -254,6 +254,55 @@ def check_hold(ctx, facts):
                 ctx.ok("C05.2", F, "re-acquiring commit is guarded by hold == false", b.relfile, s.line)
             else:
                 ctx.violate("C05.2", F, "commit-under-fresh-guard", b.relfile, s.line, "the commit closure runs under a newly acquired guard on a path where the lock should have been held since planning")
+    # the commit closure called from a closure that the function hands to a combinator:
+    # `guard.and_then(|mut info| commit(&mut info))` (the planning guard) or `arc.and_then(|arc| .. arc.write() .. commit(..))`
+    eff = Effects(facts)
+    for cl in facts.closures_of(b, recursive=False):
+        for s in cl.calls():
+            cn = s.node.get("callee") or ""
+            if not cn.startswith(b.name + "::{closure") or cn not in facts.bodies or cn == cl.name:
+                continue
+            if not any(k.startswith("store:ColReaderInfo") for site, k in eff.prim.get(cn, [])):
+                continue
+            n_cc += 1
+            # where the function uses this closure
+            uses = []
+            for site, st in b.assigns():
+                rv = st["rv"]
+                if rv["k"] == "agg" and rv.get("akind") == "closure" and rv.get("name") == cl.name and not st["place"]["p"]:
+                    for c in b.calls():
+                        if any(op_local(b.resolve_copy(a)) == st["place"]["l"] for a in c.node["args"][1:]):
+                            uses.append(c)
+            tup = s.node["args"][1] if len(s.node["args"]) > 1 else None
+            tl = op_local(tup) if tup else None
+            d = cl.def_rvalue(tl) if tl is not None else None
+            gl = None
+            if d and d[0] == "rv" and d[1]["k"] == "agg":
+                il = op_local(d[1]["ops"][0])
+                gl = guard_of_pointer(cl, il) if il is not None else None
+            if gl is None or len(uses) != 1:
+                ctx.violate("C05.2", F, "commit-closure-argument", cl.relfile, s.line, "cannot determine which guard the commit closure writes through")
+                continue
+            use = uses[0]
+            # is the guard the closure's own parameter (the payload of the Option the combinator is applied to) ?
+            cur, from_param = gl, False
+            for _ in range(6):
+                if cur == 2:
+                    from_param = True
+                    break
+                sd = cl.single_def(cur)
+                pp = op_place(sd[2]["rv"]["op"]) if sd and sd[1] == "assign" and sd[2]["rv"]["k"] == "use" else None
+                if pp is None or pp["p"]:
+                    break
+                cur = pp["l"]
+            recv = op_local(b.resolve_copy(use.node["args"][0])) if use.node["args"] else None
+            ucn = strip_generics(use.node.get("callee") or "")
+            if from_param and G is not None and recv == G and re.search(r"Option(::<[^>]*>)?::(and_then|map|map_or|map_or_else|into_iter)$", ucn):
+                ctx.ok("C05.2", F, "commit closure writes through the guard acquired before planning (handed to it by %s)" % ucn.split("::")[-1], b.relfile, use.line)
+            elif hold is not None and any(b.edge_guards(e, use.bb) for e in hold_false_edges):
+                ctx.ok("C05.2", F, "re-acquiring commit is guarded by hold == false", b.relfile, use.line)
+            else:
+                ctx.violate("C05.2", F, "commit-under-fresh-guard", b.relfile, use.line, "the commit closure runs under a newly acquired guard on a path where the lock should have been held since planning")
     ctx.floor("C05.2", "commit closure call sites", n_cc, 1)
 
 
